@@ -205,11 +205,12 @@ def pin_clock(module, readings):
         def now(cls, tz=None):
             return from_us_dt(next_us())
 
-    if hasattr(module, "datetime") and module.datetime is datetime:
+    if hasattr(module, "datetime") and isinstance(module.datetime, type) and issubclass(module.datetime, datetime):
         module.datetime = PinnedDatetime
-    if hasattr(module, "time") and inspect.ismodule(module.time):
+    if hasattr(module, "time") and (inspect.ismodule(module.time) or getattr(module.time, "_pinned", False)):
         import types
         fake = types.SimpleNamespace(
+            _pinned=True,
             time=lambda: (next_us() - 62135596800 * 10**6) / 10**6,
             time_ns=lambda: (next_us() - 62135596800 * 10**6) * 1000,
         )
@@ -237,8 +238,70 @@ def locate(module, qualname, args):
     return obj, owner
 
 
+def run_case(rep, model, clauses):
+    """one sampled input: run the real function, evaluate every clause natively.
+    returns {clause: True/False/'skip:<why>'} and the outcome"""
+    modname = rep["fn"].split("::")[0][:-3].replace("/", ".")
+    qual = rep["fn"].split("::")[1]
+    module = importlib.import_module(modname)
+    ctx = {"trace": []}
+    args = {p: build(t, p, model, ctx) for p, t in rep["schema"].items()}
+    pre = copy.deepcopy({k: v for k, v in args.items() if not isinstance(v, RecordingStub)})
+    readings = model.get("__clock__", [])
+    pin_clock(module, readings)
+    callargs = dict(args)
+    fn, owner = locate(module, qual, callargs)
+    result, raised = None, None
+    try:
+        if isinstance(fn, property):
+            result = fn.fget(callargs["self"])
+        else:
+            if isinstance(fn, (staticmethod, classmethod)):
+                fn = fn.__func__
+            result = fn(**callargs)
+            if inspect.iscoroutine(result):
+                result = asyncio.run(result)
+    except BaseException as exc:  # noqa: BLE001
+        raised = exc
+    env_extra = dict(args)
+    for i, cn in enumerate(rep.get("clock", [])):
+        env_extra[cn] = from_us_dt(readings[i]) if i < len(readings) else from_us_dt(readings[-1]) if readings else datetime.now()
+    env_extra["result"] = result
+    env_extra["trace"] = tuple(ctx["trace"])
+    env = make_env(rep, env_extra)
+    old_env = make_env(rep, {**pre, **{cn: env_extra[cn] for cn in rep.get("clock", [])}})
+    out = {}
+    if raised is not None:
+        return {"__raised__": type(raised).__name__}, raised
+    for name, expr in clauses.items():
+        try:
+            out[name] = bool(eval_clause(expr, env, old_env))
+        except Exception as exc:  # noqa: BLE001
+            out[name] = f"skip:{type(exc).__name__}"
+    return out, None
+
+
+def batch(path):
+    """cross-check: many sampled inputs for one function (thorough tier)"""
+    rep = json.load(open(path))
+    sys.path.insert(0, rep.get("repo_root", "/repo"))
+    results = []
+    for model in rep["models"]:
+        try:
+            res, raised = run_case(rep, model, rep["clauses"])
+        except CannotReplay as exc:
+            res = {"__cannot__": str(exc)}
+        except Exception as exc:  # noqa: BLE001
+            res = {"__error__": f"{type(exc).__name__}: {exc}"}
+        results.append(res)
+    print(json.dumps(results))
+    return 0
+
+
 def main(path):
     rep = json.load(open(path))
+    if "models" in rep:
+        return batch(path)
     sys.path.insert(0, rep.get("repo_root", "/repo"))
     model = rep.get("model") or {}
     if not rep.get("schema"):
